@@ -86,12 +86,19 @@ def iterMargin (fn : Fn) (rnd : Rat → Rat) (acc : Rat) (h : Head) : Rat :=
         let mw := if den = 0 then 0 else rabs (rabs (y2 - y1) - acc) / den
         rmin mf mw
 
+/-- round to `bits` significant bits (ties up): keeps 200 iterations bounded at every abscissa scale
+    (`Lp.rndK` rounds to an absolute grid, which is garbage for brackets at |x| ~ 1e-200) -/
+def rndRel (bits : Nat) (x : Rat) : Rat :=
+  if x = 0 then 0 else
+  let s : Rat := pow2 ((bits : Int) - frexpExp (rabs x))
+  ((x * s + 1 / 2).floor : Rat) / s
+
 def handle : Handler := fun op args =>
   match op with
   | "c02.root" =>
     withArgs (do let fn ← pFn; let xl ← pRat; let xr ← pRat; let acc ← pRat; pure (fn, xl, xr, acc)) args
       fun (fn, xl, xr, acc) =>
-      let rnd := rndK 200
+      let rnd := rndRel 200
       let r := findRootR fn.eval sqrtRat rnd xl xr acc maxIterations
       let body (kind : String) (v : Rat) : String :=
         "ok " ++ kind ++ " " ++ showRat v ++ " " ++ toString r.evals.length ++ " " ++ showRats r.evals ++ " "
